@@ -226,7 +226,33 @@ class FactCache:
                 others = [(v, bb) for v, bb in zip(pi.o, pi.x['bb']) if not (v == y or (const_int(v) is not None and const_int(v) == const_int(y)))]
                 if len(others) != 1:
                     continue
+                # inside the loop that carries the merge its alternative may be computed anew before b: only after the loop
+                if fn.in_cycle(pi.block) and pi.block in fn.reachable_from(b):
+                    continue
                 pb = fn.bb[others[0][1]]
+                # the merged value IS that alternative: a flag `left = (cmp(...) < 0)` known non-zero means the test was true
+                ov = others[0][0]
+                if isinstance(ov, str):
+                    extra.add(('ne', _k(ov), y))
+                    oi = fn.get(ov)
+                    if oi is not None and oi.op == 'zext' and oi.x.get('sbits') == 1 and const_int(y) == 0:
+                        extra.update(cond_atoms(fn, oi.o[0], True)[0])
+                # every other merge of the same block came through the same edge: what is known about it is known about the
+                # value that edge carries (par != NULL says the loop ran, so `left` is the last comparison's flag)
+                for q in pi.block.insts:
+                    if q.op != 'phi':
+                        break
+                    if q is pi or others[0][1] not in q.x['bb']:
+                        continue
+                    qv = q.o[q.x['bb'].index(others[0][1])]
+                    if not isinstance(qv, str):
+                        continue
+                    qi = fn.get(qv)
+                    for (op2, x2, y2) in list(facts):
+                        if x2 == q.ref and op2 in ('eq', 'ne') and const_int(y2) is not None:
+                            extra.add((op2, _k(qv), y2))
+                            if qi is not None and qi.op == 'zext' and qi.x.get('sbits') == 1 and const_int(y2) == 0:
+                                extra.update(cond_atoms(fn, qi.o[0], op2 == 'ne')[0])
                 atoms, via = edge_atoms(fn, pb, pi.block)
                 extra.update(atoms)
                 extra.update(self.block_facts(pb, _stack + (b.idx,)))
